@@ -410,6 +410,9 @@ fn dest_tables(m: &Model, ctx: &mut Ctx) {
                 Some(Val::Ctor(n, _, _)) if n == "Stdout" => Some(Ok(ok(named("Delivered", &[("to", Val::Sym("<stdout>".into())), ("bytes", a.get(1).cloned().unwrap_or(Val::Unit)), ("truncating", Val::Bool(true))])))),
                 _ => None,
             },
+            // a single write() may deliver only part of the text: not a delivery of the whole text
+            (".write", _) if matches!(a.first(), Some(Val::Ctor(n, _, _)) if n == "File" || n == "Stdout") => Some(Ok(ok(named("PartialWrite", &[("note", Val::Str("write() returns after any number of bytes; the count is not checked".into()))])))),
+            (".flush", _) => Some(Ok(ok(Val::Unit))),
             (n, "stdout") if n.ends_with("io::stdout") => Some(Ok(Val::Ctor("Stdout".into(), vec![], BTreeMap::new()))),
             (".lock", _) if matches!(a.first(), Some(Val::Ctor(n, _, _)) if n == "Stdout") => Some(Ok(a[0].clone())),
             _ => None,
